@@ -545,5 +545,5 @@ def run_job(job, ctx):
         return
     m = Monitor(job["shape"], job["leaf"], job["tier"], job["keyfile"], ctx.tmp)
     n, nops = W.explore(ctx, m.spec, job["leaf"], job["depth"], m, tier="quick", max_states=1500 if job["tier"] == "quick" else 6000,
-                        extra_ops=extra_ops(m.spec, job["leaf"]))
+                        extra_ops=extra_ops(m.spec, job["leaf"]), drop=("nv", "selfset", "augset"))   # routes that reach no state the others do not reach
     ctx.sample({"shape": job["shape"], "leaf": job["leaf"], "keyfile": job["keyfile"], "states": n, "rows": [r[0] for r in m.rows]})
